@@ -107,7 +107,7 @@ def run(tier, t0):
     R = 5 if tier == 'quick' else 7
     tasks = []
     for r in range(0, R + 1):
-        for ch in common.chunks(rm.descendants((), r), 600):
+        for ch in common.chunks(rm.interleaved(rm.descendants((), r)), 600):
             tasks.append((work_paths, ch))
     level = 'basic' if tier == 'quick' else 'single'
     deep = []
@@ -119,7 +119,7 @@ def run(tier, t0):
                     deep.append(p)
                     if r < 29 and (tier == 'thorough' or (f + n + r) % 5 == 0):
                         deep.extend(rm.children(p))
-    deep = sorted(set(deep))
+    deep = rm.interleaved(set(deep))
     for ch in common.chunks(deep, 500):
         tasks.append((work_paths, ch))
     if tier == 'quick':
